@@ -235,6 +235,7 @@ func (w *World) ProduceBlock(dtSec int, miss []int) {
 			w.noteMismatch("apphash", fmt.Sprintf("app hash differs on replica %d at height %d: %x vs %x", i, h, hash, h0))
 		}
 	}
+	w.pend = nil // clients re-read their sequence after every block (pipelining only spans one inter-block window)
 	w.Logf("h=%d apphash=%x txs=%d", h, h0, len(now))
 	w.St.SimSeconds += int64(dtSec)
 	for _, o := range w.activeOracles() {
